@@ -10,6 +10,7 @@ import (
 	"path/filepath"
 	"sort"
 	"strings"
+	"sync"
 	"testing"
 	"time"
 
@@ -287,6 +288,73 @@ func TestC04(t *testing.T) {
 			if len(sum.Samples) < 2 {
 				sum.Samples = append(sum.Samples, map[string]any{"cfg": cfg, "key": key, "events": evs})
 			}
+		}
+		// Mirror at quiescence (DMapKey.tla): several mutating operations on one key released at the same instant -
+		// their write timestamps are taken before the fragment lock, so lock order and timestamp order differ - and, once all
+		// have returned, every backup copy must equal the primary.  Also the hand-over of a lock to a waiter whose request
+		// is older than the holder's last lease.
+		for r := 0; r < envInt("VERIF_C04_ROUNDS", 30); r++ {
+			key := fmt.Sprintf("q%d-%d-%d", cfgc.R, cfgc.T, r)
+			t0 := time.Now().UnixMilli()
+			var wg sync.WaitGroup
+			start := make(chan struct{})
+			kind := []string{"str", "num", "lock"}[r%3]
+			n := 3 + rng.Intn(3)
+			for j := 0; j < n; j++ {
+				p := paths[rng.Intn(len(paths))]
+				if _, ok := p.(*pipePath); ok && kind == "lock" {
+					p = paths[0]
+				}
+				j, x := j, rng.Intn(100)
+				wg.Add(1)
+				go func() {
+					defer wg.Done()
+					<-start
+					switch kind {
+					case "str":
+						switch {
+						case x < 40:
+							p.Put(ctx, "c04", key, fmt.Sprintf("c%d-%s", j, key), PutOpts{})
+						case x < 55:
+							p.Put(ctx, "c04", key, fmt.Sprintf("c%d-%s", j, key), PutOpts{Mode: "PX", D: ms(5000)})
+						case x < 70:
+							p.GetPut(ctx, "c04", key, fmt.Sprintf("g%d-%s", j, key))
+						case x < 85:
+							p.Expire(ctx, "c04", key, ms(5000), true)
+						default:
+							p.Delete(ctx, "c04", key)
+						}
+					case "num":
+						if x < 70 {
+							p.Incr(ctx, "c04", key, 1+j)
+						} else {
+							p.Decr(ctx, "c04", key, 1)
+						}
+					case "lock":
+						// the first caller takes the lock for 120 ms and leases it once; the others wait for it
+						if j == 0 {
+							if rep, l := p.Lock(ctx, "c04", key, ms(120), ms(50)); rep.Ret == "ok" {
+								time.Sleep(ms(40))
+								l.Lease(ctx, ms(100))
+							}
+						} else {
+							time.Sleep(ms(10))
+							p.Lock(ctx, "c04", key, 0, ms(600))
+						}
+					}
+				}()
+			}
+			close(start)
+			wg.Wait()
+			sum.Evaluations += n
+			evs := []trace.Ev{{"t": "op", "op": "round", "ret": "mixed", "path": "several", "k": key, "expired": false,
+				"detail": kind, "copies": copiesOf(c, "c04", key, t0)}}
+			rankTimestamps(evs)
+			seq++
+			w.Emit(trace.Ev{"t": "reset", "seq": seq, "cfg": cfg, "key": key, "kind": "concurrent " + kind})
+			w.Emit(evs[0])
+			sum.Histories++
+			sum.DistinctNontrivial++
 		}
 		for _, p := range paths {
 			p.Close()
